@@ -142,6 +142,9 @@ func ReadFile(r io.Reader) (File, []string, error) {
 		nextCommentLines = []string{}
 		nextRecordOpCode = 0
 	}
+	if err := tr.Err(); err != nil {
+		return f, warnings, err
+	}
 	return f, warnings, nil
 }
 
